@@ -249,8 +249,6 @@ structure MSt where
   /-- (qx, qy); `none` = NaN -/
   q : Option Pt := none
   ps : PState := {}
-  /-- chosen groups, reversed -/
-  out : List OutGroup := []
   deriving Repr
 
 def isFlagIdx (k : Kind) (i : Nat) : Bool := k == .A && (i % 7 == 3 || i % 7 == 4)
@@ -399,17 +397,20 @@ def isMoveFirst (k0 : Kind) (first : Bool) : Bool := first && k0 == .M
 
 /-- state after printing group `g` and moving to the rewritten end point -/
 def advance (st : MSt) (r : Rewritten) (g : OutGroup) (setStart : Bool) : MSt :=
-  { st with c := r.c, q := r.q, x := r.ax, y := r.ay, ps := (emitGroup st.ps g).1, out := g :: st.out,
+  { st with c := r.c, q := r.q, x := r.ax, y := r.ay, ps := (emitGroup st.ps g).1,
             x0 := if setStart then r.ax else st.x0, y0 := if setStart then r.ay else st.y0 }
 
-/-- one iteration of the loop in `copyInstruction`.
-    `k0` = the instruction's command, `first` = `i == 0`, `single` = `i == 0 && i + di >= n` -/
-def groupStep (P : NumPr) (st : MSt) (k0 : Kind) (rel : Bool) (first single : Bool) (cs : List Coord) (ctx : Ctx := {}) : MSt :=
+/-- the group printed for a rewritten group: the shorter of the current and the alternative candidate -/
+def chosen (P : NumPr) (st : MSt) (k0 : Kind) (rel first : Bool) (r : Rewritten) : OutGroup :=
+  choose st.ps (candidates P st (isMoveFirst k0 first) rel r).1 (candidates P st (isMoveFirst k0 first) rel r).2
+
+/-- one iteration of the loop in `copyInstruction`: new state and the printed group (none for a removed
+    zero-length line).  `k0` = the instruction's command, `first` = `i == 0`, `single` = `i == 0 && i + di >= n` -/
+def groupStep (P : NumPr) (st : MSt) (k0 : Kind) (rel : Bool) (first single : Bool) (cs : List Coord) (ctx : Ctx := {}) :
+    MSt × List OutGroup :=
   let r := rewrite st (groupKind k0 first) rel single cs ctx
-  if r.skip then { st with c := r.c, q := r.q }
-  else
-    let cand := candidates P st (isMoveFirst k0 first) rel r
-    advance st r (choose st.ps cand.1 cand.2) (isMoveFirst k0 first)
+  if r.skip then ({ st with c := r.c, q := r.q }, [])
+  else (advance st r (chosen P st k0 rel first r) (isMoveFirst k0 first), [chosen P st k0 rel first r])
 
 def isCurveKind (k : Kind) : Bool := k == .C || k == .S || k == .Q || k == .T
 
@@ -423,11 +424,13 @@ def chunks (di : Nat) : Nat → List Coord → List (List Coord)
   | _ + 1, [] => []
   | f + 1, l => l.take di :: chunks di f (l.drop di)
 
-def groupLoop (P : NumPr) (k0 : Kind) (rel : Bool) (single : Bool) (next : Option Kind) : MSt → Bool → List (List Coord) → MSt
-  | st, _, [] => st
+def groupLoop (P : NumPr) (k0 : Kind) (rel : Bool) (single : Bool) (next : Option Kind) :
+    MSt → Bool → List (List Coord) → MSt × List OutGroup
+  | st, _, [] => (st, [])
   | st, first, g :: r =>
-    groupLoop P k0 rel single next
-      (groupStep P st k0 rel first (first && single) g (ctxOf st.ps k0 r.isEmpty next)) false r
+    let a := groupStep P st k0 rel first (first && single) g (ctxOf st.ps k0 r.isEmpty next)
+    let b := groupLoop P k0 rel single next a.1 false r
+    (b.1, a.2 ++ b.2)
 
 /-- arity `di` of an instruction with `n` coordinates, `none` = the instruction is dropped -/
 def instrArity (k : Kind) (n : Nat) : Option Nat :=
@@ -441,23 +444,26 @@ def instrArity (k : Kind) (n : Nat) : Option Nat :=
 
 def zGroup : OutGroup := { k := .Z, rel := true, items := [] }
 
-def copyInstr (P : NumPr) (st : MSt) (ins : Instr) (next : Option Kind := none) : MSt :=
+def copyInstr (P : NumPr) (st : MSt) (ins : Instr) (next : Option Kind := none) : MSt × List OutGroup :=
   let n := ins.cs.length
   if n == 0 then
     if ins.k == .Z then
-      { st with x := st.x0, y := st.y0, ps := (emitGroup st.ps zGroup).1, out := zGroup :: st.out }
-    else st
+      ({ st with x := st.x0, y := st.y0, ps := (emitGroup st.ps zGroup).1 }, [zGroup])
+    else (st, [])
   else
     match instrArity ins.k n with
-    | none => st
+    | none => (st, [])
     | some di => groupLoop P ins.k ins.rel (n == di) next st true (chunks di n ins.cs)
 
-def runInstrs (P : NumPr) : MSt → List Instr → MSt
-  | st, [] => st
-  | st, i :: r => runInstrs P (copyInstr P st i (r.head?.map (·.k))) r
+def runInstrs (P : NumPr) : MSt → List Instr → MSt × List OutGroup
+  | st, [] => (st, [])
+  | st, i :: r =>
+    let a := copyInstr P st i (r.head?.map (·.k))
+    let b := runInstrs P a.1 r
+    (b.1, a.2 ++ b.2)
 
 /-- the groups `ShortenPathData` prints for the instruction list -/
-def groupsOfInstrs (P : NumPr) (is : List Instr) : List OutGroup := (runInstrs P {} is).out.reverse
+def groupsOfInstrs (P : NumPr) (is : List Instr) : List OutGroup := (runInstrs P {} is).2
 
 def maxLen : Nat := 100000
 
